@@ -502,6 +502,9 @@ def generate(prop, rng, tier):
             m = rng.randint(1, 3)
             ids = rng.sample([0, 1, 2, 5, 11, 12, 40], m)
             tr["batch"] = [[i, rng.choice([1.0, 2.0, 0.5, 4.0])] for i in ids]
+            if rng.random() < 0.25:
+                # points on the tension and on the compression side of a part under bending: factors of either sign
+                tr["batch"] = [[i, f * rng.choice([1.0, -1.0])] for i, f in tr["batch"]]
             tr["row_order"] = rng.choice(["step", "step", "node"])
             tr["subset_of_mesh"] = rng.random() < 0.4
             tr["law_order"] = rng.choice(["samples", "samples", "sorted", "reversed"])
@@ -559,6 +562,7 @@ def generate_c05(rng, tier):
     if rng.random() < 0.22:
         return generate_c05_chunked(rng, tr)
     if tr["mode"] == "K2":
+        tr["solo_rebuilt"] = rng.random() < 0.25
         m = rng.randint(1, 5)
         ids = rng.sample([0, 1, 2, 3, 5, 7, 11, 12, 13, 40, 1000], m)
         if rng.random() < 0.5:
@@ -691,13 +695,15 @@ def exec_c04(trace, out, log):
         if trace.get("step_labels") in ("gapped", "offset", "unsorted", "timestamp_ns", "negative", "float_seconds"):
             ser = relabel_steps(ser, trace["step_labels"])
             out.count("probe:load_step_labels_" + trace["step_labels"])
-        law = get_law(trace["law"], int(trace["mat"]), law_nodes([(i, big * 1.0731 * r) for i, r in nodes], trace.get("law_order")), int(trace["bins"]))
+        law = get_law(trace["law"], int(trace["mat"]), law_nodes([(i, big * 1.0731 * abs(r)) for i, r in nodes], trace.get("law_order")), int(trace["bins"]))
         if trace.get("law_order") in ("sorted", "reversed"):
             out.count("probe:law_node_order_" + trace["law_order"])
         det, rec, _ = run_two_pass(ser, law, peek=trace.get("peek", "none") if trace.get("peek") not in ("plot", "plot_hyst") else "between")
         all_rows = collective_rows(rec)
         out.steps += 2
         out.count("probe:batched_history")
+        if len({r > 0 for _, r in nodes}) == 2:
+            out.count("probe:batch_factors_of_either_sign")
         # every point must count what the scalar history counts, scaled by its (power of two) ratio
         rows = None
         for j, (nid, ratio) in enumerate(nodes):
@@ -705,6 +711,10 @@ def exec_c04(trace, out, log):
             for r in mine:
                 for k in ("loads_min", "loads_max"):
                     r[k] = r[k] / ratio
+                if any(q < 0 for _, q in nodes) and r["loads_min"] > r["loads_max"]:
+                    # which reversal is "min" is decided at the first point; for a point of the other sign the two load
+                    # columns come swapped (C04 speaks about load ranges): compare the pair, not the column names
+                    r["loads_min"], r["loads_max"] = r["loads_max"], r["loads_min"]
             key = [(r["loads_min"], r["loads_max"], r["is_closed_hysteresis"], r["run_index"]) for r in mine]
             if rows is None:
                 rows, key0 = mine, key
@@ -1081,8 +1091,12 @@ def exec_c05(trace, out, log):
         if shared:
             law_s = law_b
         else:
-            law_s = slice_law(law_b, nid)
+            law_s = slice_law(law_b, nid) if not trace.get("solo_rebuilt") else None
             if law_s is None:
+                if trace.get("solo_rebuilt"):
+                    # an assessment of the same point with a coarser table has run earlier in this process
+                    get_law(kind, mat, big * mf * ratio, max(5, bins // 2 + 3))
+                    out.count("history:same_point_binned_with_another_class_count_before")
                 # separately constructed law: equal only up to the root finder's tolerance
                 law_s = get_law(kind, mat, big * mf * ratio, bins)
                 tol = 2e-3
